@@ -479,7 +479,14 @@ class RamSession(Session):
     def acquire_lock(self):
         """Acquire an exclusive lock on the currently-loaded session data."""
         self.locked = True
-        self.locks.setdefault(self.id, threading.RLock()).acquire()
+        while True:
+            lock = self.locks.setdefault(self.id, threading.RLock())
+            lock.acquire()
+            if self.locks.get(self.id) is lock:
+                break
+            # clean_up() discarded this lock object between the lookup
+            # and the acquisition: it no longer guards the session.
+            lock.release()
 
     def release_lock(self):
         """Release the lock on the currently-loaded session data."""
